@@ -39,18 +39,9 @@ Definition conflict_kind (k : kind) : bool :=
   | _ => false
   end.
 
-(* no item of the shared namespace carries the literal name `_RESERVED_` *)
-Definition no_key_item (e : ev) : Prop := ~ In reserved_key (shared_decl e).
-
-Lemma no_key_shared pre : Forall no_key_item pre -> ~ In reserved_key (shared pre).
-Proof.
-  intros F C. unfold shared in C. apply in_flat_map in C. destruct C as (e & He & Hn).
-  rewrite Forall_forall in F. exact (F e He Hn).
-Qed.
-
 (* a conflict reported for an event is a genuine one *)
 Lemma conflict_genuine icd pre e post k : conflict icd pre e k -> conflict_kind k = true ->
-  Forall no_key_item pre ->
+  ~ In reserved_key (shared pre) ->
   ~ (conflict_free (pre ++ e :: post) /\ Forall (fun x => in_range icd x = true) (pre ++ e :: post)).
 Proof.
   intros C K NK [[C1 C2 C3 C4 C5 C6] F].
@@ -61,7 +52,7 @@ Proof.
   - (* duplicate name in the shared namespace *)
     apply (dup_flat shared_decl pre e post n H2); [|exact C1].
     destruct e; simpl in H, H0; try discriminate; inversion H0; subst; left; reflexivity.
-  - exact (no_key_shared _ NK H).
+  - exact (NK H).
   - unfold host_names in H0. rewrite map_flat_map in H0.
     apply (dup_flat _ pre (EHost c n v) post n H0); [left; reflexivity|exact C3].
   - congruence.
@@ -141,15 +132,13 @@ Proof.
 Qed.
 
 Lemma parse_no_false_conflict k R : enumerates R -> parse G icd roots = RErr k -> conflict_kind k = true ->
-  Forall no_key_item (events_of R) ->
   ~ (conflict_free (events_of R) /\ Forall (fun e => in_range icd e = true) (events_of R)).
 Proof.
-  intros E H K NK [C F]. destruct (parse_err_is_conflict k H) as (pre & e & post & s1 & T & A & B).
+  intros E H K [C F]. destruct (parse_err_is_conflict k H) as (pre & e & post & s1 & T & A & B).
   pose proof (Permutation_sym (enum_perm R E)) as P.
-  assert (NKt : Forall no_key_item (trace G roots)) by exact (forall_perm _ _ _ P NK).
   destruct B as [B|[B|[B|B]]]; try (subst k; discriminate).
   apply (conflict_genuine icd pre e post k B K).
-  - rewrite T in NKt. apply Forall_app in NKt. exact (proj1 NKt).
+  - exact (run_ok_no_key icd pre st0 s1 A).
   - rewrite <- T. split; [exact (cf_perm _ _ P C)|exact (forall_perm _ _ _ P F)].
 Qed.
 
